@@ -453,7 +453,7 @@ def check_hist(prop, tier, seed, replay=None):
         if prop == "C11":
             bf = Builder()
             fexe, fvs = build_fs(bf)
-            flines, cr3 = fanout(fexe, seed, 32 if tier == "quick" else 480, tier, os.path.join(bf.scratch, "out_fs"), budget, extra=["writeonly"])
+            flines, cr3 = fanout(fexe, seed, 64 if tier == "quick" else 480, tier, os.path.join(bf.scratch, "out_fs"), budget, extra=["writeonly"])
             crashes += cr3
             for w, l in flines:
                 tag, d = kv(l)
